@@ -92,6 +92,14 @@ func Gen(seed uint64, profile string) *Scenario {
 	}
 	if k.rules {
 		s := genRules(simkit.NewRNG(seed, "pw/rules"), sc, &k)
+		if simkit.NewRNG(seed, "pw/pad-rules").Chance(1, 15) {
+			// more than 64 KiB of comment lines before the first rule
+			var b strings.Builder
+			for i := 0; b.Len() < 66000; i++ {
+				b.WriteString("# padding line " + strconv.Itoa(i) + " ........................................\n")
+			}
+			s = b.String() + s
+		}
 		sc.Rules = &s
 	}
 	genRuns(simkit.NewRNG(seed, "pw/runs"), sc, &k, profile)
